@@ -175,6 +175,9 @@ def features(proto):
         nm = sum(1 for f in p.fields if f.kind == 'match')
         if nm >= 2:
             A.add('multi-match')
+            keys = [f.key for f in p.fields if f.kind == 'match']
+            if len(set(keys)) < len(keys):
+                A.add('multi-match-samekey')
         if p.root and not any(f.kind == 'len' for f in p.fields):
             A.add('root-no-len')
         if not p.root:
